@@ -62,7 +62,9 @@ NSEL = {"quick": 1800, "thorough": 100000}
 NSELCTX = {"quick": 60, "thorough": 1500}
 NGROUP_FLOWS = {"quick": 10, "thorough": 300}     # flows per group_by/merge assignment
 
-STRS = ["a", "b", "a.b", "a.c.d", "b.x", "a.b.c", "zz", "a.5"]
+STRS = ["a", "b", "a.b", "a.c.d", "b.x", "a.b.c", "zz", "a.5",
+        # the last part compared with the text of a leaf value (None, True, 1, 0, 2.5, "")
+        "a.None", "b.None", "c.a.None", "a.True", "b.1", "c.0", "a.2.5", "b."]
 CLSS = ["int", "str", "float", "tuple", "list", "Marker", "CallableCls", "dict",
         # classes whose metaclass is not type: ABCs, a user ABC hierarchy, an Enum, a custom
         # metaclass - classes like any other (isinstance of the data)
@@ -76,7 +78,9 @@ FNS_RAISING = ["raise_value", "raise_on_str", "attr", "zerodiv", "ctxkey",
                "raise_stopfill", "raise_lenakey", "raise_runtime"]
 PREDS = ["isdict", "eq5", "truthy", "raise", "len2", "false",
          # classes used as predicates (called with the sub-context like any callable)
-         "cls_bool", "cls_dict", "cls_str"]
+         "cls_bool", "cls_dict", "cls_str",
+         # predicates that read the sub-context themselves and meet a missing key
+         "raise_lenakey", "raise_keyerror", "reads_missing"]
 
 
 class Marker(object):
@@ -383,6 +387,21 @@ def make_pred(name):
         return lambda s: False
     if name == "len2":
         return lambda s: len(s) == 2
+    if name == "raise_lenakey":
+        def pred_lenakey(s):
+            import lena.core
+            raise lena.core.LenaKeyError("predicate needs a key that is missing")
+        return pred_lenakey
+    if name == "raise_keyerror":
+        def pred_keyerror(s):
+            raise KeyError("missing")
+        return pred_keyerror
+    if name == "reads_missing":
+        def pred_reads(s):
+            import lena.context
+            return lena.context.get_recursively(s if isinstance(s, dict) else {},
+                                                "no.such.key") is not None
+        return pred_reads
     if name == "cls_bool":
         return bool
     if name == "cls_dict":
